@@ -646,6 +646,9 @@ def gen_filter_list(rng, pop, paths, hist, strict):
     return fl
 
 
+SPEC_KEYS = ("q", "att", "att2", "comp", "wrap", "bare", "none", "fset")
+
+
 def split_routes(rng, fl):
     q, att, comp = [], [], []
     mode = rng.choice(["q", "att", "comp", "mix", "mix"])
@@ -694,7 +697,14 @@ def gen_case(rng, size, n_queries, outside):
         else:
             s = split_routes(rng, a)
             s["fam"] = None
+            if rng.random() < 0.3:
+                # the second member of the two-member composite carries other attached filters than the first
+                s["att2"] = [gen_prop_filter(rng, paths, hist) for _ in range(rng.choice([0, 1, 1, 2]))]
             queries.append(s)
+    for s in queries:
+        # the query argument as a FilterSet object (the same object is handed to every route in turn)
+        if not s.get("bare") and not s.get("none") and rng.random() < 0.35:
+            s["fset"] = True
     ids = sorted({o["id"] for o in pop})
     gets = []
     by_id = {}
@@ -711,13 +721,46 @@ def gen_case(rng, size, n_queries, outside):
         gets.append({"id": gid, "att": [one() for _ in range(rng.choice([0, 1, 1, 2]))],
                      "comp": [one() for _ in range(rng.choice([0, 1, 1, 2]))]})
     return {"pop": pop, "split": rng.randrange(0, len(pop) + 1), "queries": queries, "gets": gets, "hist": hist,
-            "outside": outside}
+            "outside": outside, "grow": gen_grow(rng, pop, paths)}
+
+
+def gen_grow(rng, pop, paths):
+    """A history for one FileSystemStore / MemoryStore: the population is added in two to four steps and the same
+    queries are asked after every step.  Half of the histories add the objects without `modified` first, so that a
+    type directory is met in the flat layout before it gets its first id directory."""
+    if not pop:
+        return None
+    order = list(range(len(pop)))
+    rng.shuffle(order)
+    if rng.random() < 0.5:
+        order.sort(key=lambda i: "modified" in dict(pop[i]["tree"][1]))
+    n = len(order)
+    cuts = sorted({rng.randrange(0, n + 1) for _ in range(rng.choice([1, 2, 3]))} | {n})
+    if rng.random() < 0.5:
+        cuts = [0] + cuts                       # the empty store is asked first
+    types = sorted({o["type"] for o in pop})
+    queries = [{"q": []}]
+    for _ in range(3):
+        r = rng.random()
+        if r < 0.45:
+            q = [{"p": "type", "op": rng.choice(["=", "=", "in", "!="]), "v": rng.choice(types)}]
+            if q[0]["op"] == "in":
+                q[0]["v"] = [q[0]["v"], rng.choice(types)]
+        elif r < 0.7:
+            q = [{"p": "id", "op": "=", "v": rng.choice(pop)["id"]}]
+        else:
+            q = [gen_prop_filter(rng, paths, {})]
+        spec = {"q": q}
+        if rng.random() < 0.4:
+            spec["fset"] = True
+        queries.append(spec)
+    return {"order": order, "steps": cuts, "queries": queries}
 
 
 def case_json(case):
     return {"pop": [to_json(o["tree"]) for o in case["pop"]], "split": case["split"],
-            "queries": [{k: s[k] for k in ("q", "att", "comp", "wrap", "bare", "none") if k in s} for s in case["queries"]],
-            "gets": case["gets"]}
+            "queries": [{k: s[k] for k in SPEC_KEYS if k in s} for s in case["queries"]],
+            "gets": case["gets"], "grow": case.get("grow")}
 
 
 # --------------------------------------------------------------------------
@@ -741,7 +784,7 @@ def listing_coq(listing, pop):
     return "(lspec [%s])" % ";\n  ".join(dirs)
 
 
-def case_terms(case, idx, mode, om, listing=None):
+def case_terms(case, idx, mode, om, listing=None, grow_impl=None):
     k = case["split"]
     objs = [to_coq(o["tree"], o["reg"]) for o in case["pop"]]
     t_all = "fs_build [] p%d" % idx
@@ -756,12 +799,22 @@ def case_terms(case, idx, mode, om, listing=None):
             "Definition tb%d := Eval vm_compute in %s.\n" % (idx, t_part))
     terms = []
     for s in case["queries"]:
-        terms.append("show3 %s %s p%d m%d t%d ma%d tb%d %s %s %s %s" % (
+        terms.append("show3 %s %s p%d m%d t%d ma%d tb%d %s %s %s %s %s" % (
             mode, om, idx, idx, idx, idx, idx, common.coq_bool(bool(s["wrap"] or s["comp"])),
-            flist_coq(s["q"]), flist_coq(s["att"]), flist_coq(s["comp"])))
+            flist_coq(s["q"]), flist_coq(s["att"]), flist_coq(s.get("att2", s["att"])), flist_coq(s["comp"])))
     for g in case.get("gets", []):          # all_versions(id) with attached filters, after the queries
         terms.append("show_av %s %s p%d m%d t%d ma%d tb%d (vs %s) %s %s" % (
             mode, om, idx, idx, idx, idx, idx, cs(g["id"]), flist_coq(g["att"]), flist_coq(g.get("comp", []))))
+    g = case.get("grow")
+    if g and grow_impl:                     # the growing stores, after the gets: per step, per query
+        defs += "Definition pg%d : list pv := map (fun i => nth i p%d VNone) [%s].\n" % (
+            idx, idx, "; ".join("%d%%nat" % i for i in g["order"]))
+        for si, (n, step) in enumerate(zip(g["steps"], grow_impl)):
+            defs += ("Definition mg%d_%d := Eval vm_compute in mem_of (firstn %d pg%d).\n" % (idx, si, n, idx) +
+                     "Definition tg%d_%d := Eval vm_compute in reorder_fs (fs_build [] (firstn %d pg%d)) %s.\n" % (
+                         idx, si, n, idx, listing_coq(step["listing"], case["pop"])))
+            for spec in g["queries"]:
+                terms.append("show_grow %s %s p%d mg%d_%d tg%d_%d %s" % (mode, om, idx, idx, si, idx, si, flist_coq(spec["q"])))
     return defs, terms
 
 
@@ -772,11 +825,11 @@ def ix_to_keys(line, keys):
     return "OK " + "".join((keys[int(x)] if x != "?" else "?") + ";" for x in line[3:].split(",") if x)
 
 
-def run_model(cases, mode, om, tag="c12", listings=None):
+def run_model(cases, mode, om, tag="c12", listings=None, grows=None):
     """Evaluate every query of every case in the model; returns per case a list of (mem, fs, c2) lines."""
     groups, cur, size = [], [], 0
     for i, c in enumerate(cases):
-        defs, terms = case_terms(c, i, mode, om, listings[i] if listings else None)
+        defs, terms = case_terms(c, i, mode, om, listings[i] if listings else None, grows[i] if grows else None)
         # bound the size of the printed result (coqc overflows its stack beyond ~20 000 characters)
         sz = len(terms) * (3 * 3 * len(c["pop"]) + 40)
         if cur and size + sz > 16000:
@@ -980,6 +1033,39 @@ def bad_keys(g, vals):
     return out
 
 
+def judge_c2_att2(case, spec, spec_out, got, parsed, vals, vals_text, flagged_fs2, viol, stats, mq, mode):
+    """The two-member composite whose members carry different attached filters: the answer is the union of what each
+    member may answer with ITS OWN attached filters (plus the query and the composite's filters)."""
+    pop, k = case["pop"], case["split"]
+    fl1 = spec["q"] + spec["att"] + spec["comp"]
+    fl2 = spec["q"] + spec["att2"] + spec["comp"]
+    try:
+        expect = sorted(set(ref_query(vals[:k], fl1)) | set(ref_query(vals[k:], fl2)))
+    except Undefined:
+        return
+    kind, keys, _ = parsed
+    stats["judged_c2_att2"] = stats.get("judged_c2_att2", 0) + 1
+    if kind == "OK" and sorted(set(keys)) == expect and len(set(keys)) == len(keys):
+        return
+    finding, outside = None, False
+    agrees = mq is not None and same_line("c2", got["c2"], mq[2], mq[0])
+    if agrees and mode == "TextOnDicts" and ts_text_shaped(kind, keys or [], expect, fl1 + spec["att2"], pop) and \
+            (kind == "OK" or got["c2"] == "EXC TypeError"):
+        finding = FINDINGS["ts"]
+    elif agrees and kind == "OK" and flagged_fs2 and set(keys) <= set(expect) and set(expect) - set(keys) <= flagged_fs2:
+        outside = True
+    if outside:
+        stats["outside_layout_hypothesis"] += 1
+        return
+    viol.append(Violation(
+        "c2 route: query %s (memory member attached %s, filesystem member attached %s, composite %s) returns %s; "
+        "the union of what each member may answer under its own filters is %s" % (
+            json.dumps(spec["q"]), json.dumps(spec["att"]), json.dumps(spec["att2"]), json.dumps(spec["comp"]),
+            got["c2"][:300], expect),
+        {"kind": "query", "pop": [to_json(o["tree"]) for o in pop], "split": k, "spec": spec_out, "route": "c2",
+         "expect": expect}, finding=finding))
+
+
 def oracle_case(case, impl, viol, stats, om, model_q=None, mode="TextOnDicts"):
     pop = case["pop"]
     vals = [(o["key"], to_ref(o["tree"])) for o in pop]
@@ -1002,12 +1088,24 @@ def oracle_case(case, impl, viol, stats, om, model_q=None, mode="TextOnDicts"):
             expect_text = None
         parsed = {r: parse_line(got[r]) for r in ("mo", "md", "fs", "c2")}
         results[qi] = parsed
+        spec_out = {kk: spec[kk] for kk in SPEC_KEYS if kk in spec}
+        if got.get("qarg_changed"):
+            viol.append(Violation(
+                "query %s given as %s: after the four sources answered, the caller's query object holds other filters than "
+                "before (a source added its own filters to it, so they leak into the next source's answers)" % (
+                    json.dumps(spec["q"]), "a FilterSet" if spec.get("fset") else "a list"),
+                {"kind": "qarg", "pop": [to_json(o["tree"]) for o in pop], "split": k, "spec": spec_out}))
+        if "att2" in spec:
+            judge_c2_att2(case, spec, spec_out, got, parsed["c2"], vals, vals_text, flagged_fs2, viol, stats,
+                          model_q[qi] if model_q is not None else None, mode)
         if expect is None:
             stats["undefined"] += 1
             continue
         stats["judged"] += 1
         why_ty = tyid_ok(fl)
         for route in ("mo", "md", "fs", "c2"):
+            if route == "c2" and "att2" in spec:
+                continue
             kind, keys, _ = parsed[route]
             if kind == "OK" and keys == expect:
                 continue
@@ -1051,7 +1149,7 @@ def oracle_case(case, impl, viol, stats, om, model_q=None, mode="TextOnDicts"):
                 if finding is None:
                     continue
             viol.append(Violation(what, {"kind": "query", "pop": [to_json(o["tree"]) for o in pop], "split": k,
-                                         "spec": {kk: spec[kk] for kk in ("q", "att", "comp", "wrap", "bare", "none") if kk in spec},
+                                         "spec": {kk: spec[kk] for kk in SPEC_KEYS if kk in spec},
                                          "route": route, "expect": expect}, finding=finding))
     # monotonicity and conjunction = intersection, on the implementation's own answers
     fams = {}
@@ -1261,6 +1359,75 @@ def compare_gets(case, impl, model, dis):
     return n
 
 
+def judge_grow(case, impl, model, viol, dis, stats, mode):
+    """The stores that live through a history (objects added in steps, the same store objects queried after every
+    step): model comparison and reference evaluation over the objects added so far."""
+    g, steps = case.get("grow"), impl.get("grow")
+    if not g or not steps:
+        return 0
+    pop, order = case["pop"], g["order"]
+    base = len(case["queries"]) + len(case["gets"])
+    n = li = 0
+    for si, (cut, step) in enumerate(zip(g["steps"], steps)):
+        sub = [pop[i] for i in order[:cut]]
+        vals = [(o["key"], to_ref(o["tree"])) for o in sub]
+        vals_text = [(o["key"], to_ref(o["tree"], ts_as_text=not o["reg"])) for o in sub]
+        flagged = {o["key"] for o in sub if o["flags"]}
+        if step["refused"]:
+            dis.append({"route": "grow", "why": "a store refused an add", "refused": step["refused"][:3], "step": si})
+        for qi, (spec, got) in enumerate(zip(g["queries"], step["queries"])):
+            mline = model[base + li] if model is not None and base + li < len(model) else None
+            li += 1
+            payload = {"kind": "grow", "pop": [to_json(o["tree"]) for o in pop], "grow": g, "step": si, "query": qi}
+            agree = {"mem": None, "fs": None}
+            if mline is not None:
+                mm, mf, known = mline
+                n += 2
+                agree["mem"] = got["mem"] == mm
+                agree["fs"] = same_line("fs", got["fs"], mf, mm, exact=(known == "true"))
+                if agree["fs"] is False and got["fs"].startswith("EXC") and mf.startswith("OK") and mm == got["fs"] == got["mem"]:
+                    agree["fs"] = True          # raises exactly as the scan of everything does (Appendix A.2)
+                for route, ml in (("mem", mm), ("fs", mf)):
+                    if not agree[route]:
+                        dis.append({"route": "grow." + route, "step": si, "added_so_far": cut, "spec": spec,
+                                    "impl": got[route][:400], "model": ml[:400], "grow": g,
+                                    "pop": [to_json(o["tree"]) for o in pop]})
+            if got.get("qarg_changed"):
+                viol.append(Violation("growing store, step %d: the caller's query object %s was changed by query()" % (
+                    si, json.dumps(spec["q"])), dict(payload, route="qarg", expect=None)))
+            try:
+                expect = ref_query(vals, spec["q"])
+            except Undefined:
+                continue
+            try:
+                expect_text = ref_query(vals_text, spec["q"])
+            except Exception:      # noqa: BLE001
+                expect_text = None
+            stats["grow_judged"] = stats.get("grow_judged", 0) + 1
+            for route in ("mem", "fs"):
+                kind, keys, _ = parse_line(got[route])
+                if kind == "OK" and keys == expect:
+                    continue
+                finding, outside = None, False
+                if agree[route] and mode == "TextOnDicts" and (
+                        (kind == "OK" and expect_text is not None and keys == expect_text and expect_text != expect) or
+                        (ts_text_shaped(kind, keys or [], expect, spec["q"], sub) and (kind == "OK" or got[route] == "EXC TypeError"))):
+                    finding = FINDINGS["ts"]
+                elif agree[route] and route == "fs" and kind == "OK" and flagged and set(keys) <= set(expect) and \
+                        set(expect) - set(keys) <= flagged:
+                    outside = True
+                if outside:
+                    stats["outside_layout_hypothesis"] += 1
+                    continue
+                viol.append(Violation(
+                    "growing store (%s), after %d of %d objects were added through the sink: query %s on the same store object "
+                    "returns %s; the reference evaluation over the objects added so far gives %s" % (
+                        "FileSystemStore" if route == "fs" else "MemoryStore", cut, len(order), json.dumps(spec["q"]),
+                        got[route][:300], expect),
+                    dict(payload, route=route, expect=expect), finding=finding))
+    return n
+
+
 ORDER_STATS = {"exact": 0, "multiset": 0}
 
 
@@ -1297,7 +1464,7 @@ def compare(case, impl, model, dis, improved, scan_raises):
                 if route in ("fs", "c2") and pg[0] == "EXC" and pm[0] == "OK" and mm == g and got["md"] == g:
                     scan_raises.append({"route": route, "spec": spec["q"] + spec["att"] + spec["comp"], "impl": g, "model": m[:200]})
                     continue
-                dis.append({"route": route, "spec": {kk: spec[kk] for kk in ("q", "att", "comp", "wrap", "bare", "none") if kk in spec},
+                dis.append({"route": route, "spec": {kk: spec[kk] for kk in SPEC_KEYS if kk in spec},
                             "impl": g[:400], "model": m[:400],
                             "pop": [to_json(o["tree"]) for o in case["pop"]], "split": case["split"]})
     return n
@@ -1368,7 +1535,8 @@ def check(run):
     dis = []
     model = None
     try:
-        model = run_model([c for c, _ in good], mode, om, listings=[r.get("listing") for _, r in good])
+        model = run_model([c for c, _ in good], mode, om, listings=[r.get("listing") for _, r in good],
+                          grows=[r.get("grow") for _, r in good])
         total = 0
         improved, scan_raises = [], []
         for (c, r), m in zip(good, model):
@@ -1392,8 +1560,18 @@ def check(run):
         run.broken.append(Broken("correspondence", "model evaluation failed", {"error": str(e)[-1500:]}))
     # oracle
     stats = {"judged": 0, "undefined": 0, "laws": 0, "get_answers": 0, "gets_undefined": 0, "outside_layout_hypothesis": 0}
+    grow_cmp = 0
     for gi, (c, r) in enumerate(good):
         oracle_case(c, r, run.violations, stats, om, model[gi] if model is not None else None, mode)
+        grow_dis = []
+        grow_cmp += judge_grow(c, r, model[gi] if model is not None else None, run.violations, grow_dis, stats, mode)
+        dis.extend(grow_dis)
+    run.coverage["growing_store_comparisons"] = grow_cmp
+    if grow_cmp and any(d.get("route", "").startswith("grow") for d in dis) and not any(
+            b.kind == "correspondence" and b.name.startswith("Model/Filters.v") for b in run.broken):
+        gd = [d for d in dis if d.get("route", "").startswith("grow")]
+        run.broken.append(Broken("correspondence", "Model/Filters.v vs stix2.datastore on growing stores (%d disagreements)" % len(gd),
+                                 {"first": gd[:3]}))
         for s in c["queries"]:
             fl = s["q"] + s["att"] + s["comp"]
             run.count({"pop": [o["key"] for o in c["pop"]], "spec": [s["q"], s["att"], s["comp"], s["wrap"]]},
@@ -1418,7 +1596,7 @@ def check(run):
         for qi in (1, 2):
             if qi < len(c["queries"]):
                 run.sample({"population_size": len(c["pop"]), "query": {kk: c["queries"][qi][kk] for kk in ("q", "att", "comp")},
-                            "impl": {k2: v[:160] for k2, v in r["queries"][qi].items()}})
+                            "impl": {k2: v[:160] for k2, v in r["queries"][qi].items() if isinstance(v, str)}})
     run.coverage["trusted_base"] += [
         "coq/Model/Filters.v: hand-written model (compared with the implementation on every run)",
         "the harness's typed-tree generator and its rendering to JSON / Gallina; `parse` is not modelled: the harness "
@@ -1490,6 +1668,42 @@ def replay(payload):
                 bad = True
             if r.get("op") == "get" and not (get_line == "NONE" or (get_line.startswith("ONE ") and get_line[4:] in expect)):
                 bad = True
+        if bad:
+            print("VIOLATION property=C12 replay=(given)")
+            return 1
+        print("no violation on this input")
+        return 0
+    if r.get("kind") == "qarg":
+        case = {"pop": r["pop"], "split": r.get("split", 0), "queries": [r["spec"]], "gets": []}
+        res = common.run_impl("c12_impl", [case], procs=1)[0]
+        if "queries" not in res:
+            print("replay: could not build the stores: %s" % res["build"])
+            return 1
+        print("replay query object %s through the four sources: %s" % (json.dumps(r["spec"]), {k2: v[:80] for k2, v in res["queries"][0].items() if k2 != "qarg_changed"}))
+        if res["queries"][0].get("qarg_changed"):
+            print("  the caller's query object was changed")
+            print("VIOLATION property=C12 replay=(given)")
+            return 1
+        print("no violation on this input")
+        return 0
+    if r.get("kind") == "grow":
+        case = {"pop": r["pop"], "split": 0, "queries": [], "gets": [], "grow": r["grow"]}
+        res = common.run_impl("c12_impl", [case], procs=1)[0]
+        if not res.get("grow"):
+            print("replay: could not run the history: %s" % res.get("build"))
+            return 1
+        step = res["grow"][r["step"]]
+        got = step["queries"][r["query"]]
+        print("replay growing store: steps %s, after step %d (%d objects added) query %s" % (
+            r["grow"]["steps"], r["step"], step["n"], json.dumps(r["grow"]["queries"][r["query"]])))
+        print("  MemoryStore     -> %s" % got["mem"][:300])
+        print("  FileSystemStore -> %s" % got["fs"][:300])
+        print("  reference evaluation over the objects added so far: %s" % r.get("expect"))
+        if r.get("route") == "qarg":
+            bad = bool(got.get("qarg_changed"))
+        else:
+            kind, keys, _ = parse_line(got[r["route"]])
+            bad = not (kind == "OK" and keys == sorted(r["expect"]))
         if bad:
             print("VIOLATION property=C12 replay=(given)")
             return 1
